@@ -178,6 +178,32 @@ def hook(rd, e, st, ctx):
                 i0, j0 = int(ij[0]), int(ij[1])
                 out.append((sp.ImmutableMatrix(ov[i0:i0 + bd[0], j0:j0 + bd[1]]), s2))
             return out
+    if k == 'MCall' and not e.get('inrepo') and e.get('m') in ('segment', 'head', 'tail'):
+        # fixed-size vector blocks: v.segment<N>(i), v.head<N>(), v.tail<N>() (size in the VectorBlock type) and v.segment(i, n), v.tail(n)
+        mm = re.search(r'VectorBlock<.*, (-?\d+)>\s*$', e['t']['s'])
+        tn = int(mm.group(1)) if mm and int(mm.group(1)) > 0 else None
+        cargs = [const_value(a) for a in e.get('args', [])]
+        name = e['m']
+        spec = None
+        if None not in cargs:
+            if name == 'segment' and len(cargs) == 2:
+                spec = (int(cargs[0]), int(cargs[1]))
+            elif name == 'segment' and len(cargs) == 1 and tn:
+                spec = (int(cargs[0]), tn)
+            elif name == 'head' and not cargs and tn:
+                spec = (0, tn)
+            elif name == 'tail' and (tn or len(cargs) == 1):
+                spec = ('tail', int(cargs[0]) if cargs else tn)
+        if spec is not None:
+            out = []
+            for (ov, s2) in rd.ev(e['obj'], st, ctx):
+                if not isinstance(ov, sp.MatrixBase) or ov.shape[1] != 1:
+                    return NotImplemented
+                i0, n_ = ((ov.shape[0] - spec[1], spec[1]) if spec[0] == 'tail' else spec)
+                if i0 < 0 or i0 + n_ > ov.shape[0]:
+                    return NotImplemented
+                out.append((sp.ImmutableMatrix(ov[i0:i0 + n_, 0]), s2))
+            return out
     if k == 'MCall' and not e.get('inrepo'):
         name = e.get('m')
         if name in ('transpose', 'col', 'row', 'head', 'norm', 'squaredNorm', 'dot', 'cross', 'determinant', 'trace', 'x', 'y', 'z') or name in ('array', 'matrix', 'eval'):
